@@ -254,3 +254,10 @@ package codec
 //@ func indexNeedEscapeInString
 //@   pure
 //@   free ensures 0 <= result && result <= len(s)
+
+// ---- query parameters (C03): a value is handed to the field exactly as supplied ----------------------------------
+// The setters that parse the alternate spellings are the same as for JSON, so the query spelling of a
+// scalar denotes what the JSON string spelling denotes only if nothing is trimmed or rewritten on the way.
+//@ func (*Codec).decodeQuery
+//@   assert at SetGoValue#0 exact: typeis(arg0, string) && as(string, arg0) == values[0] && len(values) == 1
+//@   assert at AppendGoValue#0 exact: typeis(arg0, string) && as(string, arg0) == value
